@@ -34,6 +34,11 @@ CLAIMED = {
     level="Batch == streaming follows when both routes execute the same statements on the same state: the check establishes that streaming code reads no batch attribute, that no configuration it reads was chosen from batch data, that every batch loop body is exactly the streaming call on (Q[t-1], samples[t]), that per-call arguments are honoured, that carried state is per instance and that no RNG is reachable. Bit-identity itself is not computed.",
     note="Call graph resolution through self/MRO/typed locals; one known finding (Madgwick default gain chosen from the presence of mag data).",
     ref="DESIGN.md §2 C06"),
+ "C11": dict(
+    technique="must-fact dataflow on the three constructors (shape / exact NaN-safe zero-norm / self-normalisation gates dominate ndarray.__new__; _assert_SO3 dominates DCM construction on every keyword arm), structural contents of the SO(3) gates, UNIT/REAL facts on the quaternion-producing helpers",
+    level="Every path to object creation in Quaternion/QuaternionArray/DCM must pass the gates that make the class invariant ('every object is a valid rotation') hold, with the zero test in the only form that is both exact and NaN-safe; the SO(3) gates must conjoin det and orthogonality tests; +,- re-enter the constructor. The acceptance boundary set by NumPy's default tolerances is not evaluated.",
+    note="Gate forms are classified syntactically (table in props/c11.py); AVN proves sum q^2 = 1 for Quaternion.from_rpy.",
+    ref="DESIGN.md §2 C11"),
 }
 
 NOT_YET = "check not built yet in this session (work in progress; see DESIGN.md §2 for the planned static rules)"
